@@ -1,0 +1,16 @@
+//go:build verif
+
+// Verification hook (build tag verif): read-only access to the lines an
+// AdaptiveTable has collected, for the harness under /verif (property C19
+// reads the rows manage.DescribeUsers produced without formatting them).
+// Not compiled into normal builds.
+
+package fns
+
+func (at *AdaptiveTable) VerifLines() [][]string {
+	out := make([][]string, len(at.lines))
+	for i, line := range at.lines {
+		out[i] = append([]string{}, line...)
+	}
+	return out
+}
